@@ -215,6 +215,20 @@ partial def loop (h : IO.FS.Stream) (out : IO.FS.Stream) (m : Profile) : IO Unit
       out.putStrLn "END"
       out.flush
       loop h out m
+  | ["INFLATE", id, hx] =>
+      -- the driver's instance of the `inflate` parameter alone (compared with flate2)
+      out.putStrLn s!"CASE {id}"
+      match Obs.unhex hx with
+      | none => out.putStrLn "bad-hex"
+      | some bs =>
+          match Zlib.inflate bs with
+          | .ok o => out.putStrLn s!"ok {Obs.hex o}"
+          | .err (.io .unexpectedEof) => out.putStrLn "err io:UnexpectedEof"
+          | .err (.io (.other c)) => out.putStrLn s!"err io:{c}"
+          | _ => out.putStrLn "err other"
+      out.putStrLn "END"
+      out.flush
+      loop h out m
   | [cmd, id, hx] =>
       if cmd == "LOAD" || cmd == "LOADV" || cmd == "LOADO" then
         match Obs.unhex hx with
